@@ -154,7 +154,7 @@ def _sanitise(wf: Dict[str, Any]):
 
 # --------------------------------------------------------------------------- DoWhile family (runtime slice)
 
-def gen_dowhile(rng: random.Random, max_iter: int = 3) -> Dict[str, Any]:
+def gen_dowhile(rng: random.Random, max_iter: int = 3, with_aggregate: bool = False, allow_failure: bool = True) -> Dict[str, Any]:
     """A small DoWhile package: src -> loop{work -> cond} -> after, with ground truth by construction.
     K further iterations are instantiated (cond prints True K times, then False)."""
     K = rng.randint(0, max_iter)
@@ -172,6 +172,9 @@ def gen_dowhile(rng: random.Random, max_iter: int = 3) -> Dict[str, Any]:
         main.append(comp("mid", 1, ["stage0.src:ref"]))
     main.append({"name": "looper", "stage": S, "$import": "dowhile.yaml", "bindings": {"inp": "stage0.src:ref"}})
     main.append(comp("after", after_stage, ["stage%d.work:ref" % S]))
+    if with_aggregate:
+        # a consumer outside the loop that aggregates ALL instances of the looped component
+        main.append(comp("agg", after_stage, ["stage%d.work:loopref" % S]))
     body = [comp("work", 0, ["inp:ref"])]
     if two_body:
         body.append(comp("extra", 0, ["work:ref"]))
@@ -183,7 +186,7 @@ def gen_dowhile(rng: random.Random, max_iter: int = 3) -> Dict[str, Any]:
     # exit script
     fail_at = None
     r = rng.random()
-    if r < 0.2:
+    if r < 0.2 and allow_failure:
         fail_at = rng.randint(0, K)
     comps: Dict[str, List[Dict[str, Any]]] = {}
     for k in range(K + 1):
@@ -206,6 +209,9 @@ def gen_dowhile(rng: random.Random, max_iter: int = 3) -> Dict[str, Any]:
         nodes["stage%d.%d#cond" % (S, k)] = {"stage": S, "preds": [w], "base": "cond"}
     nodes["stage%d.after" % after_stage] = {"stage": after_stage, "base": "after",
                                             "preds": ["stage%d.%d#work" % (S, k) for k in range(last + 1)]}
+    if with_aggregate:
+        nodes["stage%d.agg" % after_stage] = {"stage": after_stage, "base": "agg", "aggregate": True,
+                                              "preds": ["stage%d.%d#work" % (S, k) for k in range(last + 1)]}
     for nd in nodes.values():
         nd.setdefault("repeat", None)
         nd.setdefault("aggregate", False)
